@@ -120,7 +120,10 @@ PROPS = {
              'history of 3..16 (thorough 3..30) steps: commit of the next height (overlapping writes, removals, no-op overwrites, '
              'empty change sets over 2..4 keys per column in two columns), rollback_block_to(latest), restart with a policy from '
              'one of three regimes (constant; growing ranges; free = none/full/ranges 1..6 growing and shrinking); every 5th case '
-             'uses keys of mixed lengths where one key is a prefix of another. After every step: get of every key on the database '
+             'uses keys of mixed lengths where one key is a prefix of another. Every 3rd case is a directed deep reorg (constant policy, '
+             'window wider than the reorg): base blocks over two keys, 1-2 late blocks that create / remove / overwrite further keys, '
+             'rollback of the late blocks plus 1-2 blocks below them, replacement blocks writing the same keys with other contents at the '
+             'earliest replaced heights, 1-2 (thorough 1-3) rounds. After every step: get of every key on the database '
              'and view_at(h).get of every key for every h from start-1 to start+#commits. non-trivial = distinct case with a '
              'non-panic observation',
         assumptions=['the database is created by this version (no ModificationsHistoryV1 entries)',
